@@ -72,17 +72,77 @@ def compare(ctx, typ, c, tc, obj, case, what):
         ctx.nontrivial_case(instance_hash(c, tc))
         ctx.event("feed_round_optimum>0")
     if obj > ref + tol * max(1.0, abs(ref)):
+        # "no feasible allocation feeds more" is refuted by a witness: an optimal point of the model's own programme that satisfies every
+        # constraint of the REFERENCE programme (each within 1e-6 of its own magnitude) and attains the reported value.  Then the
+        # reference solver, not the model, was imprecise (ill-conditioned seaweed ledgers at world scale move the optimum by ~5e-5).
+        own, vals = own_programme(c, tc, typ)
+        if own is not None:
+            ok, val, why = ref_lp.witness(B, vals, own)
+            if ok and val >= obj - tol * max(1.0, abs(ref)):
+                ctx.event("reference_solver_imprecise_witness_feasible")
+                return
+            what += "; an optimal point of the model's own programme (%.9g by HiGHS) is not feasible for the stated constraints: %s" % (own, why)
         ctx.fail("reported-optimum-not-attainable:" + typ, "%s: model %.9g > best feasible %.9g (rel %.3g)" % (what, obj, ref, d), case)
     if obj < ref - tol * max(1.0, abs(ref)):
-        # root cause: is the model's own programme able to reach the reference optimum when CBC is run differently?
+        # root cause: does the model's own programme reach the reference optimum when it is solved differently (CBC with other settings,
+        # or the same matrix handed to HiGHS)?  Then the formulation is right and CBC's default solve stopped short (recorded finding).
         alt = resolve_model_lp(c, tc, typ)
+        if alt is None or alt < ref - tol * max(1.0, abs(ref)):
+            own, _ = own_programme(c, tc, typ)
+            if own is not None:
+                alt = own if alt is None else max(alt, own)
         if alt is not None and alt >= ref - tol * max(1.0, abs(ref)):
             ctx.fail("cbc-default-solve-returns-suboptimal-solution",
                      "%s: CBC (default dual simplex with presolve) reports %.9g as optimal; the same programme solved with presolve off / primal "
-                     "simplex gives %.9g = independent optimum %.9g (rel gap %.3g)" % (what, obj, alt, ref, d), case)
+                     "simplex / HiGHS gives %.9g = independent optimum %.9g (rel gap %.3g)" % (what, obj, alt, ref, d), case)
         else:
             ctx.fail("reported-optimum-below-true-optimum:" + typ,
                      "%s: model %.9g < attainable %.9g (rel %.3g); the model's own programme cannot reach it (alt solve %r)" % (what, obj, ref, d, alt), case)
+
+
+def own_programme(c, tc, typ):
+    """The model's OWN PuLP programme (first stage), taken apart into a matrix and solved by HiGHS instead of CBC:
+    (optimum or None, {variable name: value}).  Separates 'the formulation is wrong' from 'the solver did not solve it well'."""
+    from pulp import LpProblem, LpMaximize
+    from scipy.optimize import linprog
+    from scipy.sparse import coo_matrix
+    from src.optimizer.optimizer import Optimizer
+    try:
+        with quiet():
+            c2, tc2 = copy.deepcopy(c), copy.deepcopy(tc)
+            o = Optimizer(c2, tc2)
+            m = LpProblem(name="own", sense=LpMaximize)
+            variables = o.initial_variables.copy()
+            m, variables, _ = o.add_variables_and_constraints_to_model(m, variables, c2, optimization_type=typ)
+        vs = m.variables()
+        idx = {v.name: i for i, v in enumerate(vs)}
+        cost = np.zeros(len(vs))
+        for v, coef in m.objective.items():
+            cost[idx[v.name]] = -coef
+        ub, eq = ([], [], [], []), ([], [], [], [])      # rows, cols, vals, rhs
+        for con in m.constraints.values():
+            sense, rhs = con.sense, -con.constant
+            tgt = eq if sense == 0 else ub
+            sign = -1.0 if sense == 1 else 1.0
+            r = len(tgt[3])
+            for v, coef in con.items():
+                tgt[0].append(r)
+                tgt[1].append(idx[v.name])
+                tgt[2].append(sign * coef)
+            tgt[3].append(sign * rhs)
+        kw = {}
+        if ub[3]:
+            kw.update(A_ub=coo_matrix((ub[2], (ub[0], ub[1])), shape=(len(ub[3]), len(vs))).tocsr(), b_ub=np.array(ub[3]))
+        if eq[3]:
+            kw.update(A_eq=coo_matrix((eq[2], (eq[0], eq[1])), shape=(len(eq[3]), len(vs))).tocsr(), b_eq=np.array(eq[3]))
+        bounds = [(v.lowBound, v.upBound) for v in vs]
+        for method in ("highs", "highs-ds", "highs-ipm"):
+            res = linprog(cost, bounds=bounds, method=method, **kw)
+            if res.status == 0:
+                return float(-res.fun), {v.name: float(res.x[i]) for i, v in enumerate(vs)}
+    except Exception:
+        pass
+    return None, None
 
 
 def resolve_model_lp(c, tc, typ):
